@@ -22,6 +22,8 @@ def sh(cmd, cwd=None, env=None, timeout=3000):
     return r.returncode, (r.stdout + r.stderr)
 
 patch = os.path.join(wt, "patch.diff")
+import signal
+signal.signal(signal.SIGTERM, lambda *a: sys.exit(143))   # so that the finally below restores /repo
 demo = os.path.join(wt, "demo.py")
 assert os.path.exists(patch) and os.path.exists(demo), "missing deliverables"
 log = {}
